@@ -393,7 +393,7 @@ var funcs = []fnEntry{
 		}},
 	// ------------------------------------------------------------ bitstr
 	{"bitstr.New+Len", func(t *rapid.T) Args {
-		s := gen.Bytes(t, 0, 20, "s")
+		s := gen.Bytes(t, 0, 48, "s")
 		f, e := genRange(t, 8*len(s), "r")
 		return Args{S: []vk.Hex{s}, N: []int64{f, e}}
 	},
@@ -408,7 +408,7 @@ var funcs = []fnEntry{
 			}
 		}},
 	{"bitstr.Cmp", func(t *rapid.T) Args {
-		s1, s2 := gen.Bytes(t, 0, 20, "s1"), gen.Bytes(t, 0, 20, "s2")
+		s1, s2 := gen.Bytes(t, 0, 48, "s1"), gen.Bytes(t, 0, 48, "s2")
 		if gen.Chance(t, 1, 2, "same") {
 			s2 = append([]byte(nil), s1...)
 		}
@@ -427,8 +427,8 @@ var funcs = []fnEntry{
 			return func() []any { return pack(bitstr.Cmp(x, y), bitstr.Cmp(y, x), bitstr.Len(x)) }
 		}},
 	{"bitstr.CmpUpto+StrCmpUpto", func(t *rapid.T) Args {
-		s := gen.Bytes(t, 0, 20, "s")
-		av := gen.Bytes(t, 0, 20, "a")
+		s := gen.Bytes(t, 0, 48, "s")
+		av := gen.Bytes(t, 0, 48, "a")
 		if gen.Chance(t, 2, 3, "related") {
 			av = append([]byte(nil), s[:gen.Uniform(t, len(s)+1, "k")]...)
 			av = append(av, gen.Bytes(t, 0, 3, "ext")...)
